@@ -775,6 +775,120 @@ fn db_artefact(case: &DbCase, case_seed: u64, result: Option<&[Vec<usize>]>, det
     json!({"kind": "dbscan", "case_seed": case_seed, "input": serde_json::to_value(case).unwrap_or(Value::Null), "result": result, "details": details})
 }
 
+/// The job-level wrapper (`create_job_clusters`, which also fills `Jobs::clusters`): jobs on a line with coincident locations
+/// and jobs without any location; the neighbourhood is what `Jobs::neighbors` reports. The result is judged by the same
+/// oracle as the generic algorithm over the located jobs and the neighbourhoods {located job, cost < epsilon}; a job without
+/// location must never be a member.
+fn check_job_dbscan(run: &Run, rng: &mut Rng, case_seed: u64) {
+    use vrp_core::construction::clustering::dbscan::create_job_clusters;
+    use vrp_core::construction::features::{MinimizeUnassignedBuilder, TransportFeatureBuilder};
+    use vrp_core::models::problem::{Job, JobIdDimension, SimpleTransportCost, SingleBuilder, TransportCost, VehicleBuilder, VehicleDetailBuilder, get_job_locations};
+    use vrp_core::models::{GoalContextBuilder, ProblemBuilder};
+    let k = rng.range_usize(3, 7);
+    let mut coords: Vec<i64> = vec![0];
+    for _ in 1..k {
+        coords.push(*rng.pick(&[3i64, 5, 8, 12, 20, 21, 23, 40, 44, 90]));
+    }
+    let n = rng.range_usize(4, 16);
+    let p_none = *rng.pick(&[0.0, 0.15, 0.3]);
+    let spec: Vec<Option<usize>> = (0..n).map(|_| if rng.chance(p_none) { None } else { Some(rng.range_usize(1, k - 1)) }).collect();
+    let min_points = *rng.pick(&[2usize, 2, 3, 4]);
+    let eps = *rng.pick(&[1.0f64, 4.0, 6.0, 10.0, 25.0]);
+    let input = json!({"kind": "job-dbscan", "case_seed": case_seed, "coordinates": coords, "job_locations": spec, "min_points": min_points, "epsilon": eps});
+    let outcome = vverif::guard(|| -> Result<(Vec<Job>, Vec<Vec<Job>>, Vec<Vec<(Job, f64)>>), String> {
+        let data: Vec<f64> = coords.iter().flat_map(|a| coords.iter().map(move |b| (a - b).abs() as f64)).collect();
+        let transport: Arc<dyn TransportCost> = Arc::new(SimpleTransportCost::new(data.clone(), data).map_err(|e| e.to_string())?);
+        let goal = GoalContextBuilder::with_features(&[
+            MinimizeUnassignedBuilder::new("min-unassigned").build().map_err(|e| e.to_string())?,
+            TransportFeatureBuilder::new("min-distance").set_transport_cost(transport.clone()).set_time_constrained(false).build_minimize_distance().map_err(|e| e.to_string())?,
+        ])
+        .and_then(|b| b.build())
+        .map_err(|e| e.to_string())?;
+        let jobs = spec
+            .iter()
+            .enumerate()
+            .map(|(i, loc)| {
+                let b = SingleBuilder::default().id(&format!("j{i}")).duration(1.)?;
+                match loc {
+                    Some(l) => b.location(*l)?.build_as_job(),
+                    None => b.build_as_job(),
+                }
+            })
+            .collect::<Result<Vec<_>, _>>()
+            .map_err(|e| e.to_string())?;
+        let vehicle = VehicleBuilder::default()
+            .id("v1")
+            .add_detail(VehicleDetailBuilder::default().set_start_location(0).set_end_location(0).build().map_err(|e| e.to_string())?)
+            .build()
+            .map_err(|e| e.to_string())?;
+        let problem = ProblemBuilder::default()
+            .add_jobs(jobs.into_iter())
+            .add_vehicles(std::iter::once(vehicle))
+            .with_goal(goal)
+            .with_transport_cost(transport)
+            .with_logger(Arc::new(|_: &str| {}))
+            .build()
+            .map_err(|e| e.to_string())?;
+        let profile = problem.fleet.profiles.first().cloned().ok_or("no profile")?;
+        let all: Vec<Job> = problem.jobs.all().to_vec();
+        let neighbours: Vec<Vec<(Job, f64)>> = all.iter().map(|j| problem.jobs.neighbors(&profile, j, 0.).map(|(o, c)| (o.clone(), c)).collect()).collect();
+        let clusters = create_job_clusters(&all, &problem.fleet, Some(min_points), Some(eps), |profile, job| problem.jobs.neighbors(profile, job, 0.))
+            .map_err(|e| e.to_string())?
+            .into_iter()
+            .map(|c| c.into_iter().collect::<Vec<_>>())
+            .collect();
+        Ok((all, clusters, neighbours))
+    });
+    run.eval();
+    run.observe("dbscan.origin", "job-level");
+    let (all, clusters, neighbours) = match outcome {
+        Ok(Ok(v)) => v,
+        Ok(Err(e)) => {
+            run.inconclusive(&format!("job-level dbscan: cannot build the case: {}", vverif::clip(&e, 60)));
+            return;
+        }
+        Err(p) => {
+            run.violation(&format!("C17|job-dbscan|panic|{}", p.file()), &format!("create_job_clusters panicked: {} at {}", vverif::clip(&p.message, 120), p.location), json!({"input": input, "panic": p.to_json()}));
+            return;
+        }
+    };
+    let located = |j: &Job| get_job_locations(j).any(|l| l.is_some());
+    let id = |j: &Job| j.dimens().get_job_id().cloned().unwrap_or_default();
+    let points: Vec<usize> = (0..all.len()).filter(|i| located(&all[*i])).collect();
+    let index_of = |j: &Job| points.iter().position(|i| all[*i] == *j);
+    if clusters.iter().flatten().any(|j| !located(j)) {
+        let who: Vec<String> = clusters.iter().flatten().filter(|j| !located(j)).map(id).collect();
+        run.violation("C17|job-dbscan|member-without-location", &format!("a cluster contains jobs without any location: {who:?}"), json!({"input": input, "clusters": clusters.iter().map(|c| c.iter().map(id).collect::<Vec<_>>()).collect::<Vec<_>>()}));
+        return;
+    }
+    let neighbourhoods: Vec<Vec<usize>> = points.iter().map(|i| neighbours[*i].iter().filter(|(o, c)| located(o) && *c < eps).filter_map(|(o, _)| index_of(o)).collect()).collect();
+    let case = DbCase {
+        dim: 1,
+        pts: points.iter().map(|i| [spec[id(&all[*i])[1..].parse::<usize>().unwrap_or(0)].map_or(0, |l| coords[l]), 0]).collect(),
+        metric: "job-level(cost of Jobs::neighbors)".into(),
+        eps: eps as i64,
+        inclusive: false,
+        min_points,
+        order: (0..points.len()).collect(),
+        nb_order: "as returned by Jobs::neighbors".into(),
+        neighbourhoods,
+    };
+    let mapped: Vec<Vec<usize>> = clusters.iter().map(|c| c.iter().filter_map(&index_of).collect()).collect();
+    let (findings, stats) = judge_dbscan(&case, &mapped);
+    run.observe("job-dbscan.jobs-without-location", if spec.iter().any(|l| l.is_none()) { "some" } else { "none" });
+    run.observe("job-dbscan.clusters", &stats.clusters.min(4).to_string());
+    if stats.clusters >= 1 {
+        let mut seen = BTreeSet::new();
+        if spec.iter().flatten().any(|l| !seen.insert(*l)) && spec.iter().any(|l| l.is_none()) {
+            run.observe("job-dbscan.features", "coincident jobs next to jobs without location, with a cluster");
+        }
+        run.nontrivial(&format!("job-dbscan|{coords:?}|{spec:?}|{min_points}|{eps}"));
+    }
+    for (sig, what, details) in findings {
+        run.violation(&sig.replace("C17|dbscan|", "C17|job-dbscan|"), &what, json!({"input": input, "as_generic_case": serde_json::to_value(&case).unwrap_or(Value::Null), "clusters": mapped, "details": details}));
+    }
+}
+
 fn check_dbscan(run: &Run, case: &DbCase, case_seed: u64, origin: &str) -> bool {
     let n = case.pts.len();
     let result = run_dbscan(case);
@@ -1372,6 +1486,10 @@ fn check_case(run: &Run, watch: &Watch, phase: u64, i: u64, case_seed: u64) {
             watch.enter(slot, format!("lkh case_seed={case_seed} n={}", case.ids.len()));
             check_lkh(run, &case, case_seed, "random");
         }
+        1 if rng.chance(0.2) => {
+            watch.enter(slot, format!("job-level dbscan case_seed={case_seed}"));
+            check_job_dbscan(run, &mut rng, case_seed);
+        }
         1 => {
             let case = gen_db_case(&mut rng);
             watch.enter(slot, format!("dbscan case_seed={case_seed} n={}", case.pts.len()));
@@ -1553,6 +1671,8 @@ fn main() {
     run.floor("dbscan cases", run.observed("dbscan.origin", "random"), 300);
     run.floor("dbscan results with core+border+noise", run.observed("dbscan.shape", "core+border+noise"), 30);
     run.floor("dbscan results with >= 2 clusters", (2..=6).map(|c| run.observed("dbscan.clusters", &c.to_string())).sum(), 30);
+    run.floor("job-level dbscan cases (create_job_clusters)", run.observed("dbscan.origin", "job-level"), 50);
+    run.floor("job-level dbscan: coincident jobs next to jobs without location, with a cluster", run.observed("job-dbscan.features", "coincident jobs next to jobs without location, with a cluster"), 10);
     run.floor("dbscan min_points > n", run.observed("dbscan.min_points", ">n"), 5);
     run.floor("dbscan min_points 1", run.observed("dbscan.min_points", "1"), 5);
     run.floor("dbscan duplicate points", run.observed("dbscan.features", "duplicate-points"), 30);
